@@ -87,6 +87,8 @@ def gen_minmax(rng):
             lines.append(f"tot(S) :- S = #sum {{ X,{rng.choice(['P', 'P', 'P+1', 'p(P)', '|P|', 'P*P'])} : res(P,X) }}." if grouped else "tot(S) :- S = #sum { X : res(X) }.")
         elif u < 0.5:
             lines.append(f":~ {'res(P,X)' if grouped else 'res(X)'}. [X@1{',P' if grouped else ''}]")
+        elif u < 0.56 and grouped:  # the weight is NOT the result
+            lines.append(rng.choice([":~ res(P,X), w(P,W). [W@1,P,X]", "tot(S) :- S = #sum { W,P,X : res(P,X), w(P,W) }."]))
     else:
         head = rng.choice(["ok(P)", "ok(P)", ""]) if grouped else rng.choice(["ok", ""])
         lines.append(f"{head} :- {outer}{lit}.")
@@ -120,6 +122,12 @@ def gen_sumchains(rng):
         lines.append(f":~ shift(D,L){extra}. [L@1,D]")
         if rng.random() < 0.4:
             lines.append(":~ over(D,L). [L@1,D]\n{ over(D,L) } :- pshift(D,L).")
+    w = rng.random()
+    if w < 0.08:  # the weight variable is also bound outside of the aggregate
+        lines.append("a(D,L,X) :- pshift(D,L), X = #sum { L,D : shift(D,L) }.")
+    elif w < 0.14:  # a NEGATED literal of the at-most-one predicate
+        lines.append(rng.choice(["b(D,X) :- day(D), X = #sum { L,D : pshift(D,L), not shift(D,L) }.",
+                                 ":~ pshift(D,L), not shift(D,L). [L@1,D]"]))
     if rng.random() < 0.12:  # anonymous group argument in the consumer (finding D16 is about its meaning, C04 about its safety)
         lines[-1] = lines[-1].replace("shift(D,L)", "shift(_,L)").replace(",D", "").replace("ok(D)", "ok(L)")
     return "\n".join(lines)
@@ -133,14 +141,25 @@ def gen_inline(rng):
     lines.append(f"load(B,S) :- bin(B){helper_extra}, S = {f1} {{ {inner} }}.")
     u = rng.random()
     f2 = rng.choice(["#sum", "#sum", "#sum+", "#count", "#max", "#min"])
-    if u < 0.45:
+    if u < 0.45 and rng.random() < 0.25:
+        # uses of the helper that do not identify its group or its value: tuple without the group, repeated variable,
+        # constant, anonymous group; a helper whose body joins the aggregate through a variable that is not in its head
+        if rng.random() < 0.3:
+            lines[-1] = f"load(B,S) :- bin(B), cls(B,K), S = {f1} {{ {inner.replace('weight(I,W)', 'weight(I,W), kind(I,K)').replace('I : in(I,B)', 'I : in(I,B), kind(I,K)')} }}."
+        el = rng.choice(["L : load(B,L)", "L,B : load(B,L), load(B2,L), B != B2", "L : load(L,L)", "3,B : load(B,3)", "L : load(_,L)",
+                         "L,B : load(B,L); 1,b1 : extra", "L,B : load(B,L); L2,B2 : cap(B2,L2)"])
+        lines.append(f"report(X) :- X = {f2} {{ {el} }}.")
+        lines.append("#show report/1.")
+    elif u < 0.45:
         el = "L,B : load(B,L)" + rng.choice(["", "", "", ", heavy(B)", ", not light(B)", ", B != b1"])  # further conditions
         if rng.random() < 0.3:
             el += rng.choice(["; 1,x : extra", "; W : bonus(W)", "; L2,B2 : cap(B2,L2)"])
         lines.append(f"report(X) :- X = {f2} {{ {el} }}{rng.choice(['', '', ', load(B2,L2), limit(M), L2 > M'])}.")
         lines.append("#show report/1.")
     elif u < 0.7:
-        lines.append(f":~ load(B,L){rng.choice(['', ', heavy(B)'])}. [L@{rng.choice(['1', '2'])},B]")
+        lines.append(f":~ load(B,L){rng.choice(['', ', heavy(B)', ', ok(I) : item(I)', ', not bad(W) : tag(W)'])}. [L@{rng.choice(['1', '2'])},B]")
+        if rng.random() < 0.3:  # a second objective: the same tuple text, or a tuple of another length
+            lines.append(rng.choice([":~ fee(B,L). [L@1,B]", ":~ fee(B,L). [L@2,B]", ":~ toll(L). [L@1]", ":~ fee(B,L), open(B). [L@1,B,x]"]))
     elif u < 0.85:
         lines.append("over(B) :- load(B,L), cap(B,C), L > C. #show over/1.")
     else:
@@ -159,7 +178,10 @@ def gen_math(rng):
             a, b = rng.sample(vs, 2)
             body.append(rng.choice([f"{a} = {b} + {rng.choice('123')}", f"{a} - {b} {rng.choice(OPS)} {rng.choice('012')}",
                                     f"{a} + {b} {rng.choice(OPS)} {rng.choice('345')}", f"{a} {rng.choice(OPS)} {b}",
-                                    f"2*{a} = {b} + {b}", f"{a} = {b} * {rng.choice('23')}", f"W = {a} + {b}, W > 3"]))
+                                    f"2*{a} = {b} + {b}", f"{a} = {b} * {rng.choice('23')}", f"W = {a} + {b}, W > 3",
+                                    # numbers divided / taken modulo with a negative operand: clingo rounds towards zero
+                                    f"W = {b}, {a} = (0-{rng.choice('579')}){rng.choice(['/', chr(92)])}{rng.choice('23')} + W",
+                                    f"W = {b}, {a} = {rng.choice('579')}{rng.choice(['/', chr(92)])}(0-{rng.choice('23')}) + W"]))
         if rng.random() < 0.15:
             c = rng.choice([f"not {vs[0]} != {vs[1]}", f"not not {vs[0]} < {vs[1]}", "not 1 != 1", f"not {vs[0]} > 2"])
             body += [c, c]
@@ -179,6 +201,7 @@ def gen_math(rng):
             b = rng.choice(used + ["T"])
             rel.append(rng.choice([f"{a} {rng.choice(OPS)} {rng.choice('01234')}", f"{a} + {b} {rng.choice(OPS)} {rng.choice('2345')}",
                                    f"{a} {rng.choice(OPS)} {b}", f"{a} - {b} {rng.choice(OPS)} 0",
+                                   f"V0 = 0-{a}, val(V0)", f"V0 = {rng.choice('23')}*{a}, val(V0)", f"V0 = (0-2)*{a}, V0 {rng.choice(OPS)} -3",
                                    # two-sided bounds, one of them 0 / negative: the constants of the two relations differ in kind
                                    f"{a} {rng.choice(['>', '>=', '!='])} 0, {a} {rng.choice(['<', '<='])} {rng.choice('2345')}",
                                    f"{a} {rng.choice(['<', '<='])} {rng.choice('234')}, {a} {rng.choice(['>', '>='])} -{rng.choice('012')}"]))
@@ -231,7 +254,11 @@ def gen_symmetry(rng):
                                                 f"not {vs[i]} <= {vs[j]}", f"{vs[i]} <= {vs[j]}"])]))
     if k == 3 and rng.random() < 0.3:
         cmps.pop()
-    extra = rng.choice(["", "", f", q({vs[0]},V1), q({vs[1]},V2), V1 != V2", f", r({vs[0]})", ", ok(S)" if shared else ""])
+    extra = rng.choice(["", "", f", q({vs[0]},V1), q({vs[1]},V2), V1 != V2", f", r({vs[0]})", ", ok(S)" if shared else "",
+                        # a second group that shares one unequal variable / uses one at an equal position
+                        f", q({vs[1]}), q(Z), {vs[1]} != Z", f", m({vs[0]},V1), m({vs[0]},V2), V1 != V2"])
+    if rng.random() < 0.08:  # the unequal variable also at an `equal' position of the copies
+        atoms = [f"p({vs[0]},{vs[0]})", f"p({vs[1]},{vs[0]})"] + atoms[2:]
     head = rng.choice(["", "", "f", f"g({'S' if shared else '1'})", f"h({vs[0]})"])
     lines = [f"{head} :- {', '.join(atoms + cmps)}{extra}."]
     if rng.random() < 0.2:  # the symmetric literals inside an aggregate element: the tuple's variables are used outside of the condition
@@ -295,7 +322,10 @@ def gen_projection(rng):
     body = chain + extras
     rng.shuffle(body)
     hv = rng.sample(vs[:n], rng.choice([1, 1, 2]))
-    head = rng.choice([f"h({','.join(hv)})", f"h({','.join(hv)})", f"{{ h({','.join(hv)}) }}", ""])
+    head = rng.choice([f"h({','.join(hv)})", f"h({','.join(hv)})", f"{{ h({','.join(hv)}) }}", "",
+                       f"h({hv[0]}) : not q({rng.choice(vs[:n])})", f"h({hv[0]}) : r({rng.choice(vs[:n])}); g({hv[0]})"])
+    if rng.random() < 0.1:  # an interval whose bound is a variable: it does not bind it
+        body = [x.replace(f"({vs[0]},{vs[1]})", f"({vs[0]},1..{vs[1]})") for x in body]
     lines = [f"{head} :- {'; '.join(body)}."]   # `;`: a conditional literal ends at the next `;`, not at a `,`
     if rng.random() < 0.4:
         lines.append("{ e0(X,Y) } :- d(X), d(Y).")
